@@ -15,11 +15,11 @@ for p in sorted(glob.glob(os.path.join(V, "seeded", "*", "meta.json"))):
             first = (first + " " + re.sub(r"[=|]+", " ", paras[1]))[:230]
     rows.append((d["name"], d["breaks_property"], first, "; ".join("%s `%s`" % (k, v[0]) for k, v in sorted(d["caught_by"].items())), ", ".join(d["missed_by"]) or "–", d.get("note", "")))
 n1 = sum(1 for r in rows if not r[0].startswith("r")); n2 = sum(1 for r in rows if r[0].startswith("r2-")); n3 = sum(1 for r in rows if r[0].startswith("r3-"))
-n4 = sum(1 for r in rows if r[0].startswith("r4-")); n5 = sum(1 for r in rows if r[0].startswith("r5-"))
+n4 = sum(1 for r in rows if r[0].startswith("r4-")); n5 = sum(1 for r in rows if r[0].startswith("r5-")); n6 = sum(1 for r in rows if r[0].startswith("r6-"))
 t = "### 13.5 Seeded changes and which check catches which\n\n"
-t += ("%d changes written by independent sub-agents in five rounds (%d + %d + %d + %d + %d).  Each agent was given only one property's text and its own scratch worktree (rounds 2 and 3 additionally one-line summaries of the earlier ideas for that property, to force different mechanisms and locations, and were asked for hard-to-find defects: rare trigger values, long histories, very large inputs, state surviving re-initialisation, rarely used variants; rounds 4 and 5 - one agent per property, all eighteen - were in addition pointed at one area of the property each, e.g. \"which bytes are wiped\", \"the CPU probe\", \"compiler- and optimisation-dependent behaviour\").  "
+t += ("%d changes written by independent sub-agents in six rounds (%d + %d + %d + %d + %d + %d).  Each agent was given only one property's text and its own scratch worktree (rounds 2 and 3 additionally one-line summaries of the earlier ideas for that property, to force different mechanisms and locations, and were asked for hard-to-find defects: rare trigger values, long histories, very large inputs, state surviving re-initialisation, rarely used variants; rounds 4 to 6 - one agent per property, all eighteen, twice - were in addition pointed at one area of the property each, e.g. \"which bytes are wiped\", \"the CPU probe\", \"compiler- and optimisation-dependent behaviour\").  "
       "Every change was confirmed independently with `mk/verify_seeded.sh` (unchanged tree: demonstration passes; changed tree: builds, suite 30/30, demonstration fails) and then run against the quick tier of the target property and one neighbour with `mk/try_patch.sh` / `mk/seeded_batch.py`.  "
-      "Stored under `seeded/<name>/` (patch.diff, demonstration, README.txt, meta.json).  \"silent\" lists neighbouring checks that were run and rightly or wrongly said nothing.\n\n" % (len(rows), n1, n2, n3, n4, n5))
+      "Stored under `seeded/<name>/` (patch.diff, demonstration, README.txt, meta.json).  \"silent\" lists neighbouring checks that were run and rightly or wrongly said nothing.\n\n" % (len(rows), n1, n2, n3, n4, n5, n6))
 t += "| change | target | what it is (from the author's README) | caught by (first signature) | silent | note |\n|---|---|---|---|---|---|\n"
 for r in rows:
     t += "| %s | %s | %s | %s | %s | %s |\n" % r
@@ -28,6 +28,7 @@ t += ("\n**Result.**  Every seeded change is caught by the check of the property
       "**The most important miss was r3-C08-1**: a table look-up indexed by secret data in a 32-bit-word path was invisible to ctsim, because the compiler's thread-sanitizer instrumentation does not report reads of constant data at all; ctsim now uses out-of-line address-sanitizer-style call-backs (flavour `cthook`) that see every load and store, and runs a 32-bit-word build in the quick tier.  r3-C18-1 exposed two defects of the machinery (no run-time entry points for C11 atomics: link failure; no step budget: hang), r3-C13-2 made C13 build-configuration aware, r3-C20-1 needed `fopen` mode semantics and pre-existing output files in SimFS.  "
       "Other misses that led to strengthening: C10-2 (tool option order), C19-1 (related tweaks), r2-C13-2 / r2-C15-2 (fault injection added to C13/C15 generators); anticipated from round-2 summaries and added before the checks were run: prefix-of-previous tweaks, set_tweak on a CTR object keyed without a tweak (C06), near-miss `-b` values (C20), failed-init objects in C14's histories.  "
       "**Rounds 4 and 5** (36 changes) found seven more blind spots, all closed: r5-C11-2 (a parallel call that spins for ever) showed that the liveness watchdog was never armed in forked workers (interval timers are not inherited) - the check hung instead of reporting; r5-C13-1/-2 needed CPU models that answer *unrelated* CPUID leaves the way real parts do; r4-C12-1 (an `int` block index) needed requests above 2^31 bytes (hugesim); r5-C15-1 needed handle storage holding the byte image of another live object; r5-C11-1 needed the dual-world mode to execute calls that have no model; r5-C04-2 needed the CTR object to be re-keyed while it holds a tweak; r4-C17-1 needed C17 to look at what survives a cleanup that frees nothing; r4-C03-2 needs a non-little-endian 64-bit configuration and is C12's.  "
+      "**Round 6** (36 changes, new areas per property) found five more: r6-C13-2 (a back end compiled out for 32-bit words but still offered) needed C13 on a 32-bit-word build with SIMD; r6-C14-1 needed NULL data pointers with size 0 in the model (the property makes no exception for them and every shipped back end returns 0); r6-C19-1 needed `clear(); setKey(); encrypt()` without `setIV()` to be a defined history of the Arduino CTR class (clear leaves the zero counter); r6-C19-2 needed the CTR template over 64-bit-block classes (refuse the key, or match the C library's 64-bit CTR); r6-C03-1/-2 (32-bit-word decrypt paths) and r6-C04-1 (in-between key size) are C12's and C10's and were caught there.  r6-C15-1 repeats the mechanism of r5-C11-1 and is caught by C11.  "
       "Six round-1 results first looked like misses because the *report* of a found violation crashed on a truncated JSON string (fixed: `strf` is unbounded now and `./check` turns any exception of the machinery into exit 2, never 1).\n\n"
       "Own mutants used while building (all caught, not stored as directories): static result cache in `_skinny_has_vec128` (C18), `if (!inc) break;` in `skinny128_ctr_increment` (C08), wrong mask in the 32-bit `skinny128_permute_tk` (C12), `% 16` instead of `% block_size` in skinny-ecb (C20), partial `memset` for the NULL tweak in `Skinny64_Tweaked::setTweak` (C19), a 24-byte `memset` into a 16-byte stack block (caught as `sanitizer-report` by the ASan flavour only), and the eight original defects D1-D8 themselves (reverting any `fix:` commit re-creates a seeded change with a known signature, 13.3).\n")
 s = open(os.path.join(V, "DESIGN.md")).read()
